@@ -39,6 +39,17 @@ def full(m: dict) -> dict:
 ADV_MFR, ADV_SVC = [1, 2, 250], [3, 4]
 
 
+def hasvc_ok(call) -> bool:
+    """The service-call model carries the maps the device sent (d is encoded in the service name)."""
+    d = int(call.service[1:])
+
+    def exp(on, tag):
+        return {f"{tag}k": f"{tag}v{d}"} if on else {}
+
+    return (dict(call.data) == exp(d & 1, "d") and dict(call.data_template) == exp(d & 2, "t") and dict(call.variables) == exp(d & 4, "v")
+            and bool(call.is_event) == bool(d % 2))
+
+
 def adv_ok(adv) -> bool:
     """The advertisement model carries the payloads the device sent, whichever encoding each list used."""
     return list(adv.manufacturer_data.values()) == [bytes(ADV_MFR)] and list(adv.service_data.values()) == [bytes(ADV_SVC)]
@@ -87,7 +98,11 @@ def build(m: dict):
     elif k == "log":
         msg = pb("SubscribeLogsResponse", level=3, message=str(d).encode())
     elif k == "hasvc":
-        msg = pb("HomeassistantServiceResponse", service=f"s{d}")
+        # every subset of the three maps filled (chosen by d): each must reach the handler with its entries
+        def m3(on, tag):
+            return [api_pb2.HomeassistantServiceMap(key=f"{tag}k", value=f"{tag}v{d}")] if on else []
+
+        msg = pb("HomeassistantServiceResponse", service=f"s{d}", is_event=bool(d % 2), data=m3(d & 1, "d"), data_template=m3(d & 2, "t"), variables=m3(d & 4, "v"))
     elif k == "hastate":
         msg = pb("SubscribeHomeAssistantStateResponse", entity_id=f"e{d}", once=f)
     elif k == "adv":
@@ -356,7 +371,7 @@ class SessionRun(ClientRun):
             elif fam == "logs":
                 c.subscribe_logs(lambda m, sid=sid: run.cb.append([sid, "log", int(m.message.decode()), [], run.msg_seq]))
             elif fam == "svc":
-                c.subscribe_service_calls(lambda call, sid=sid: run.cb.append([sid, "hasvc", int(call.service[1:]), [], run.msg_seq]))
+                c.subscribe_service_calls(lambda call, sid=sid: run.cb.append([sid, "hasvc" if hasvc_ok(call) else "VALUE_MISMATCH:hasvc", int(call.service[1:]), [], run.msg_seq]))
             elif fam == "hastate":
                 c.subscribe_home_assistant_states(
                     lambda e, attr, sid=sid: run.cb.append([sid, "hastate", int(e[1:]), [], run.msg_seq]),
@@ -370,7 +385,8 @@ class SessionRun(ClientRun):
             elif fam == "rawadv":
                 u = c.subscribe_bluetooth_le_raw_advertisements(lambda m, sid=sid: (run.cb.append([sid, "rawadv", m.advertisements[0].address, [], run.msg_seq]), maybe_unsub()))
             elif fam == "free":
-                u = c.subscribe_bluetooth_connections_free(lambda free, limit, sid=sid: (run.cb.append([sid, "free", free, [], run.msg_seq]), maybe_unsub()))
+                u = c.subscribe_bluetooth_connections_free(
+                    lambda free, limit, sid=sid: (run.cb.append([sid, "free" if limit == 3 else "VALUE_MISMATCH:free", free, [], run.msg_seq]), maybe_unsub()))
             else:
                 raise ValueError(fam)
             self.sub_unsubs[sid] = u
@@ -697,6 +713,17 @@ def c17_systematic(rng: random.Random, quick: bool) -> list:
             msgs = [{"k": mk, "d": 20 + j, "f": j % 2 == 0} for j in range(4)]
             sch = [("ev", "sub", 1, fam), ("idle",), ("ev", "msgs", msgs[:cut]), ("iter", 1), ("ev", "unsub", 1, fam), ("ev", "msgs", msgs[cut:]), ("idle",)]
             out.append(sch)
+    # one callback per MESSAGE: a message that repeats the previous one (same values) is delivered again, within a
+    # chunk and across chunks
+    for fam, mk in (("logs", "log"), ("svc", "hasvc"), ("hastate", "hastate"), ("adv", "adv"), ("rawadv", "rawadv"), ("free", "free"), ("states", "state")):
+        m1 = {"k": mk, "d": 7, "f": False}
+        m2 = {"k": mk, "d": 6, "f": False}
+        if mk == "state":
+            _KEY[0] += 2
+            m1 = {"k": "state", "t": STATE_MODEL[STATE_TYPES[0]], "d": _KEY[0]}
+            m2 = {"k": "state", "t": STATE_MODEL[STATE_TYPES[0]], "d": _KEY[0] - 1}
+        out.append([("ev", "sub", 1, fam), ("idle",), ("ev", "msgs", [m1, m1, m2, m1]), ("idle",), ("ev", "msgs", [m1]), ("idle",), ("ev", "msgs", [m1]), ("iter", 1),
+                    ("ev", "msgs", [m2, m2]), ("idle",)])
     # a subscriber that unsubscribes itself from inside its callback, next to one that stays
     for fam, mk in (("adv", "adv"), ("rawadv", "rawadv"), ("free", "free")):
         for first_once in (True, False):
